@@ -726,6 +726,7 @@ func (prog *Program) genSynth(p0 *packages.Package) (string, error) {
 		var fb strings.Builder
 		ferr := func() error {
 		loops := loopsOf(fd.Body)
+		var callArgParams []string
 		emit := func(cl *Clause, withResults bool, loopPath string, retType string, at ...token.Pos) error {
 			prog.clauseOwner[cl.ID] = fc.Key()
 			txt, e, err := parseSpecExpr(cl.Text)
@@ -736,6 +737,18 @@ func (prog *Program) genSynth(p0 *packages.Package) (string, error) {
 			have := map[string]bool{}
 			for _, p := range params {
 				have[strings.Fields(p)[0]] = true
+			}
+			for _, ap := range callArgParams {
+				nm := strings.Fields(ap)[0]
+				if have[nm] {
+					continue
+				}
+				for _, fi := range freeIdents(e) {
+					if fi == nm {
+						params = append(params, ap)
+						have[nm] = true
+					}
+				}
 			}
 			if len(at) > 0 {
 				pos := at[0]
@@ -814,9 +827,21 @@ func (prog *Program) genSynth(p0 *packages.Package) (string, error) {
 			if stmt == nil {
 				return fmt.Errorf("contracts:%d: %s: no assignment #%d to %s", ac.Cl.Line, fc.Name, ac.Occ, ac.Var)
 			}
+			callArgParams = nil
+			if strings.HasPrefix(ac.Var, "call:") {
+				// arg0, arg1, ...: the values passed at the anchored call (declared parameters of the callee)
+				if call := callOfStmt(stmt); call != nil {
+					if sig, ok := p0.TypesInfo.TypeOf(call.Fun).(*types.Signature); ok {
+						for i := 0; i < sig.Params().Len(); i++ {
+							callArgParams = append(callArgParams, fmt.Sprintf("arg%d %s", i, types.TypeString(sig.Params().At(i).Type(), qual)))
+						}
+					}
+				}
+			}
 			if err := emit(ac.Cl, false, "", "bool", stmt.End()); err != nil {
 				return err
 			}
+			callArgParams = nil
 		}
 		var lps []string
 		for k := range fc.Loops {
@@ -849,4 +874,27 @@ func (prog *Program) genSynth(p0 *packages.Package) (string, error) {
 		b.WriteString(fb.String())
 	}
 	return b.String(), nil
+}
+
+// callOfStmt: the call a call-anchored assert is attached to (expression statement, single assignment, if condition)
+func callOfStmt(s ast.Stmt) *ast.CallExpr {
+	switch x := s.(type) {
+	case *ast.ExprStmt:
+		c, _ := x.X.(*ast.CallExpr)
+		return c
+	case *ast.AssignStmt:
+		if len(x.Rhs) == 1 {
+			c, _ := x.Rhs[0].(*ast.CallExpr)
+			return c
+		}
+	case *ast.IfStmt:
+		if c, ok := ast.Unparen(x.Cond).(*ast.CallExpr); ok {
+			return c
+		}
+		if u, ok := ast.Unparen(x.Cond).(*ast.UnaryExpr); ok && u.Op == token.NOT {
+			c, _ := ast.Unparen(u.X).(*ast.CallExpr)
+			return c
+		}
+	}
+	return nil
 }
